@@ -162,12 +162,27 @@ fn dump_solution(problem: &CoreProblem, solution: &CoreSolution) -> Value {
         let vehicle_id = dimens.get_vehicle_id().cloned().unwrap_or_default();
         let shift = dimens.get_shift_index().copied().unwrap_or(0);
         let mut acts = vec![];
+        // vehicle-specific activities (optional breaks, reloads, recharges) with the conditional job they belong to
+        let mut vacts = vec![];
+        // every job activity of the tour in visiting order (customer and vehicle-specific ones interleaved)
+        let mut seq = vec![];
         for a in route.tour.all_activities() {
             let single = match a.job.as_ref() {
                 Some(s) => s,
                 None => continue,
             };
             let ty = single.dimens.get_job_type().cloned().unwrap_or_default();
+            if matches!(ty.as_str(), "break" | "reload" | "recharge") {
+                let job_id = single.dimens.get_job_id().cloned().unwrap_or_default();
+                vacts.push(json!({
+                    "job_id": job_id, "type": ty, "place": a.place.idx, "loc": a.place.location,
+                    "dur": a.place.duration as i64, "tw": [a.place.time.start as i64, end_of(a.place.time.end)],
+                    "arr": a.schedule.arrival as i64, "dep": a.schedule.departure as i64,
+                    "frac": a.place.duration.fract() != 0. || a.place.time.start.fract() != 0.,
+                }));
+                seq.push(json!([ty, job_id]));
+                continue;
+            }
             if !matches!(ty.as_str(), "pickup" | "delivery" | "replacement" | "service") {
                 continue;
             }
@@ -183,9 +198,13 @@ fn dump_solution(problem: &CoreProblem, solution: &CoreSolution) -> Value {
                 "location": coord_index.get_by_idx(a.place.location).map(|l| serde_json::to_value(l).unwrap()),
                 "dur": a.place.duration as i64, "tw": [a.place.time.start as i64, end_of(a.place.time.end)],
                 "frac": a.place.duration.fract() != 0. || a.place.time.start.fract() != 0.,
+                "arr": a.schedule.arrival as i64, "dep": a.schedule.departure as i64,
             }));
+            seq.push(json!([ty, job_id, sub]));
         }
-        routes.push(json!({"vehicle_id": vehicle_id, "shift": shift, "acts": acts}));
+        let start_dep = route.tour.start().map(|a| a.schedule.departure as i64);
+        routes.push(json!({"vehicle_id": vehicle_id, "shift": shift, "acts": acts, "vacts": vacts, "seq": seq,
+                           "start_dep": start_dep}));
     }
     let mut unassigned: Vec<String> =
         solution.unassigned.iter().filter_map(|(job, _)| job.dimens().get_job_id().cloned()).collect();
